@@ -83,6 +83,20 @@ class WriterRef:
                 return "ok"
             return "throw"
         i = int(tok[1:].split(":")[0])
+        if op == "p":
+            # C++: a stub reader (k items per stream) is copied into this writer with CopyTo(); the i-th stub implementation called (reader and writer
+            # implementations counted together, i = 0: none) throws. CopyTo drives the writer through its public methods, so whatever was completed
+            # before the failure stays completed, and a writer that is not at its start rejects the first write.
+            k = int(tok.split(":")[1])
+            calls = []
+            for si, ch in enumerate(self.p):
+                calls += [("R", si), ("w", si)] if ch == "v" else [("R", si), ("w", si)] * k + [("R", si), ("e", si)]
+            for idx, (kind, si) in enumerate(calls, 1):
+                if i and idx == i:
+                    return "throw"
+                if kind != "R" and self.step("%s%d" % (kind, si)) != "ok":
+                    return "throw"
+            return "ok"
         if op in ("x", "y") and self.d == "cpp":
             # C++ stubs: the implementation of an in-order Write / End throws (an out-of-order one is rejected before it is called): either way the call
             # throws and the step is not completed
@@ -279,6 +293,13 @@ def sequences(pat, role, dialect, k, r, n_random, max_len=None):
             for i in range(len(pat)):
                 for a in alpha:
                     seqs.add(pre + ("x%d:%s" % (i, pat[i]), a))
+        if dialect == "cpp" and role == "w" and len(pre) <= 1:
+            # CopyTo() from a stub reader into this writer, failing at every point (and not at all), then every action
+            for kk in (0, 2):
+                ncalls = sum(2 if ch == "v" else 2 * kk + 2 for ch in pat)
+                for nf in range(0, ncalls + 1):
+                    for a in alpha:
+                        seqs.add(pre + ("p%d:%d" % (nf, kk), a))
         if dialect == "cpp":
             # an implementation that throws once (a failing sink / source): the step it was called for is not completed by that call
             for i in range(len(pat)):
@@ -299,7 +320,7 @@ def expected(pat, role, dialect, k, seq):
         if isinstance(res, str):
             res = (res, None)
         out.append(res)
-        if res[0] == "throw" and (t in ("c", "X") or t[0] in ("x", "y")):
+        if res[0] == "throw" and (t in ("c", "X") or t[0] in ("x", "y", "p")):
             continue      # a rejected close() and a raising implementation leave the object where it was: the sequence goes on
         if res[0] != "ok":
             break
@@ -311,7 +332,7 @@ def expected(pat, role, dialect, k, seq):
 def cpp_driver(ns, protos):
     """protos: [(class prefix, pattern, [step method suffixes])]"""
     o = ['#include <cstdio>\n#include <cstdlib>\n#include <iostream>\n#include <sstream>\n#include <string>\n#include <vector>\n#include "protocols.h"\n',
-         "static std::vector<int> g_k;\nstatic bool g_fail = false;\nstatic void maybe_fail() { if (g_fail) { g_fail = false; throw std::runtime_error(\"stub implementation fails\"); } }\n"]
+         "static std::vector<int> g_k;\nstatic int g_fail_in = 0;   // n > 0: the n-th stub implementation called from now on throws\nstatic void maybe_fail() { if (g_fail_in > 0 && --g_fail_in == 0) { throw std::runtime_error(\"stub implementation fails\"); } }\n"]
     for name, pat, steps in protos:
         o.append("struct W_%s : public %s::%sWriterBase {\n" % (name, ns, name))
         for i, ch in enumerate(pat):
@@ -329,22 +350,23 @@ def cpp_driver(ns, protos):
         o.append("static void run_w_%s(std::vector<std::string> const& seq) {\n  W_%s w;\n  for (auto const& t : seq) {\n    try {\n      std::string a = t.substr(1); size_t c = a.find(':'); int i = t == \"c\" ? -1 : std::stoi(a.substr(0, c)); int arg = c == std::string::npos ? 0 : std::stoi(a.substr(c + 1));\n      (void)arg;\n      if (t == \"c\") { w.Close(); }\n" % (name, name))
         for i, ch in enumerate(pat):
             o.append("      else if (t[0] == 'w' && i == %d) { w.Write%s(int32_t(1)); }\n" % (i, steps[i]))
-            o.append("      else if (t[0] == 'x' && i == %d) { g_fail = true; w.Write%s(int32_t(1)); }\n" % (i, steps[i]))
+            o.append("      else if (t[0] == 'x' && i == %d) { g_fail_in = 1; w.Write%s(int32_t(1)); }\n" % (i, steps[i]))
             if ch == "s":
                 o.append("      else if (t[0] == 'b' && i == %d) { std::vector<int32_t> v(arg, 1); w.Write%s(v); }\n" % (i, steps[i]))
                 o.append("      else if (t[0] == 'e' && i == %d) { w.End%s(); }\n" % (i, steps[i]))
-                o.append("      else if (t[0] == 'y' && i == %d) { g_fail = true; w.End%s(); }\n" % (i, steps[i]))
-        o.append('      else { std::printf("throw:no-such-method\\n"); return; }\n      g_fail = false;\n      std::printf("ok\\n");\n    } catch (std::exception const& e) { g_fail = false; std::printf("throw\\n"); }\n  }\n}\n')
+                o.append("      else if (t[0] == 'y' && i == %d) { g_fail_in = 1; w.End%s(); }\n" % (i, steps[i]))
+        o.append("      else if (t[0] == 'p') { R_%s rd; rd.left.assign(%d, arg); g_fail_in = i; rd.CopyTo(w%s); }\n" % (name, len(pat), "".join(", 1" for ch in pat if ch == "s")))
+        o.append('      else { std::printf("throw:no-such-method\\n"); return; }\n      g_fail_in = 0;\n      std::printf("ok\\n");\n    } catch (std::exception const& e) { g_fail_in = 0; std::printf("throw\\n"); }\n  }\n}\n')
         o.append("static void run_r_%s(std::vector<std::string> const& seq) {\n  R_%s r;\n  for (auto const& t : seq) {\n    try {\n      std::string a = t.substr(1); size_t c = a.find(':'); int i = t == \"c\" ? -1 : std::stoi(a.substr(0, c)); int arg = c == std::string::npos ? 0 : std::stoi(a.substr(c + 1));\n      (void)arg;\n      if (t == \"c\") { r.Close(); std::printf(\"ok\\n\"); }\n" % (name, name))
         for i, ch in enumerate(pat):
             if ch == "v":
                 o.append("      else if (t[0] == 'r' && i == %d) { int32_t v; r.Read%s(v); std::printf(\"ok\\n\"); }\n" % (i, steps[i]))
-                o.append("      else if (t[0] == 'x' && i == %d) { g_fail = true; int32_t v; r.Read%s(v); g_fail = false; std::printf(\"ok\\n\"); }\n" % (i, steps[i]))
+                o.append("      else if (t[0] == 'x' && i == %d) { g_fail_in = 1; int32_t v; r.Read%s(v); g_fail_in = 0; std::printf(\"ok\\n\"); }\n" % (i, steps[i]))
             else:
                 o.append("      else if (t[0] == 'r' && i == %d) { int32_t v; bool b = r.Read%s(v); std::printf(\"ok:%%d\\n\", b ? 1 : 0); }\n" % (i, steps[i]))
-                o.append("      else if (t[0] == 'x' && i == %d) { g_fail = true; int32_t v; bool b = r.Read%s(v); g_fail = false; std::printf(\"ok:%%d\\n\", b ? 1 : 0); }\n" % (i, steps[i]))
+                o.append("      else if (t[0] == 'x' && i == %d) { g_fail_in = 1; int32_t v; bool b = r.Read%s(v); g_fail_in = 0; std::printf(\"ok:%%d\\n\", b ? 1 : 0); }\n" % (i, steps[i]))
                 o.append("      else if (t[0] == 'B' && i == %d) { std::vector<int32_t> v; v.reserve(arg); bool b = r.Read%s(v); std::printf(\"ok:%%d:%%zu\\n\", b ? 1 : 0, v.size()); }\n" % (i, steps[i]))
-        o.append('      else { std::printf("throw:no-such-method\\n"); return; }\n    } catch (std::exception const& e) { g_fail = false; std::printf("throw\\n"); }\n  }\n}\n')
+        o.append('      else { std::printf("throw:no-such-method\\n"); return; }\n    } catch (std::exception const& e) { g_fail_in = 0; std::printf("throw\\n"); }\n  }\n}\n')
     o.append('#include "binary/protocols.h"\n')
     for name, pat, steps in protos:
         if name.startswith("SmBig"):
@@ -467,7 +489,7 @@ def run(ctx):
         else:
             seqs = sequences(pt, role, dialect, kref, r, 15 if quick else 80)
         if real:
-            seqs = [q for q in seqs if not any(t[0] == "x" for t in q)]     # a real writer has no implementation that can be made to raise
+            seqs = [q for q in seqs if not any(t[0] in ("x", "y", "p") for t in q)]     # a real writer has no implementation that can be made to raise
         outs, err = batch(name, pt, role, dialect, k, seqs, real)
         if outs is None:
             ctx.violation("driver-failed:%s" % label, "%s %s %s: %s" % (name, role, label, err), {"case_dir": root})
